@@ -310,6 +310,21 @@ def run_unit(modname, target, label, timeout_ms=10000, replay_dir=None, prop="C?
                 rec["detail"] = ob.detail
             if ob.status == "refuted":
                 rec.update(_replay_refuted(eng, contract, config, ob, label, replay_dir, prop))
+            elif ob.status == "unknown":
+                # undecided by the solvers: bounded native search for a failing input (never maps
+                # 'unknown' itself to a violation)
+                if not hasattr(eng, "_search_cache"):
+                    eng._search_cache = native_search(contract, config)
+                found, tried = eng._search_cache
+                rec["native_search_tried"] = tried
+                if found is not None:
+                    inputs, rp = found
+                    rec["status"] = "refuted"
+                    rec["confirmed"] = True
+                    rec["inputs"] = jsonable(inputs)
+                    rec["replay"] = {"violated": rp["violated"], "result": rp.get("result"), "exception": rp.get("exception"),
+                                     "requires_ok": rp.get("requires_ok"),
+                                     "found_by": "bounded native search after the solvers answered unknown on this obligation"}
             res["obligations"].append(rec)
         if eng.covers == 0 and not eng.undecided:
             # the solver could not exhibit a reachable exit (quantified precondition): look for native witnesses
@@ -359,6 +374,9 @@ def native_search(contract, config, budget_s=20.0, seed=0, n=400):
         if k in (config or {}):
             continue
         ex = m.examples(rng, n) if hasattr(m, "examples") else []
+        gen = getattr(contract, "examples", None)
+        if gen is not None and k in gen:
+            ex = list(gen[k](config or {}, rng, n)) + list(ex)
         if not ex:
             return None, 0
         cols[k] = ex
@@ -367,7 +385,7 @@ def native_search(contract, config, budget_s=20.0, seed=0, n=400):
     keys = sorted(cols)
     # first a small exhaustive product over the leading examples, then random combinations
     import itertools
-    heads = [cols[k][:12] for k in keys]
+    heads = [cols[k][:12] if len(keys) > 1 else cols[k] for k in keys]
     combos = itertools.chain(itertools.product(*heads), (tuple(rng.choice(cols[k]) for k in keys) for _ in range(200000)))
     for vals in combos:
         if time.time() - t0 > budget_s:
